@@ -1,10 +1,11 @@
 """C25: dedicated clients are isolated and single-use.
 
 PoolSessions.tla (holders of pooled connections: dedicated sessions with the recycle mark, the four steps of mux.Store,
-blocking callers) is model-checked exhaustively; negative configs re-introduce three defects; two further configs
+blocking callers whose call succeeds, breaks the wire or is abandoned through its context with the command still in
+flight) is model-checked exhaustively; negative configs re-introduce four defects; two further configs
 document the known findings about a MULTI left open.  The real client then runs dedicated sessions (WATCH/MULTI/EXEC,
-Receive, hooks, invalidation tracking, timed-out BLPOP, Close, every method after release) interleaved with blocking and
-shared-pipeline traffic over fakeredis for the single, standalone, sentinel and cluster clients; monitors evaluate the
+Receive, hooks, invalidation tracking, timed-out BLPOP, Close, every method after release) interleaved with blocking
+callers (also BLPOPs abandoned through cancel-only and deadline contexts, Do and DoMulti) and shared-pipeline traffic over fakeredis for the single, standalone, sentinel and cluster clients; monitors evaluate the
 property on the server-side history and TLC validates the merged event log against SessionTrace.tla."""
 import shutil, tempfile
 from lib import vlib
@@ -19,6 +20,7 @@ def run(ctx):
     bg = sc.background(ctx, [('PoolSessions', 'MC_sessions_neg_nomark.cfg', 'MarkedWhenReleased'),
                              ('PoolSessions', 'MC_sessions_neg_skipclean.cfg', 'CleanOnReturn'),
                              ('PoolSessions', 'MC_sessions_neg_skiptrackoff.cfg', 'CleanOnReturn'),
+                             ('PoolSessions', 'MC_sessions_neg_keepabandoned.cfg', 'NoForeignInFlight'),
                              ('PoolSessions', 'MC_sessions_known_opentx.cfg', 'NoOpenTxOnReturn'),
                              ('PoolSessions', 'MC_sessions_known_releasepanic.cfg', 'ReleaseNeverPanics')])
     r = ctx.run_tlc('pool', 'PoolSessions', 'MC_sessions_ded.cfg', workers=4, timeout=1500)
